@@ -69,11 +69,11 @@ class C02(Prop):
     lean_modules = ["NV.C02.Props", "NV.C02.Witness"]
     theorems = ["NV.C02.table_writes_in_bounds", "NV.C02.table_cursors_in_allocation", "NV.C02.mem_block_fits",
                 "NV.C02.include_depth_bounded", "NV.C02.include_stack_empty_after_end", "NV.C02.lexer_flag_clear_after_start", "NV.C02.yytext_in_bounds",
-                "NV.C02.idents_restored", "NV.C02.locals_reset_after_cleanup"]
+                "NV.C02.scratch_writes_in_bounds", "NV.C02.scratch_empty_after_destroy", "NV.C02.idents_restored", "NV.C02.locals_reset_after_cleanup"]
     witness_theorems = []
     consts = [("maxline", "MAXLINE"), ("defmax", "DEFMAX"), ("startBlockSize", "START_BLOCK_SIZE"),
-              ("numAreas", "NUMAREAS")]
-    const_headers = ["lib/lpc/lex.h", "lib/lpc/compiler.h"]
+              ("numAreas", "NUMAREAS"), ("scratchpadSize", "SCRATCHPAD_SIZE")]
+    const_headers = ["lib/lpc/lex.h", "lib/lpc/compiler.h", "lib/misc/scratchpad.h"]
     quick_n = 900
     thorough_n = 4000
     search_n = 600
@@ -148,6 +148,16 @@ class C02(Prop):
         self.exe = E.compile_harness("c02", [os.path.join(E.VERIF, "harness/c02/c02.c")])
         self.conf = E.make_mudlib(ctx.rundir)
         self.impl_cache = {}
+
+    def canon(self, lines):
+        """clean_parser() runs clean_up_locals(); scratch_destroy(); free_unused_identifiers(), epilog() runs
+        scratch_destroy() first; the model treats locals + identifier cleanup as one event, so the scratch_destroy
+        trace line is moved in front of it (the three do not interact)"""
+        out = [l.rstrip() for l in lines if l.strip() != ""]
+        for i in range(1, len(out) - 1):
+            if out[i].startswith("ev scr.destroy ") and out[i - 1].startswith("ev local.cleanup ") and out[i + 1].startswith("ev ident.free_unused"):
+                out[i - 1], out[i] = out[i], out[i - 1]
+        return out
 
     def run_impl(self, ctx, cases):
         res = E.run_harness(self.exe, self.conf, cases, ctx.rundir, args=["--timeout", "20"])
@@ -253,6 +263,28 @@ class C02(Prop):
         mk("ns-eof-in-class", "int keys() { return 1; }\nint keys;\nclass keys { int a;")
         mk("ns-then-use", "string write; void write(string s) { }\n", second="mixed f() { return write; }\nmixed g() { return (: write :); }\n")
         mk("fold-overflow", "int x = 9223372036854775807 + 1;\nint y = 4611686018427387904 * 4;\nint z = -9223372036854775807 - 10;\n")
+        # audit round: scratchpad / string scanner / comment at end of file
+        for n in (1, 3, 4, 6):
+            mk("escapes-%d-lines" % n, 'string f() { return "%s"; }\n' % "\n".join("\\q" * 200 for _ in range(n)))
+        mk("escapes-near-pad-end", 'string *g() { return ({ %s,\n "%s" }); }\n' % (",\n".join('"%s"' % (("a%03d" % i) * 20) for i in range(49)), "\\q" * 200))
+        mk("escapes-text-block", 'string f() { return @END\n%s\nEND\n; }\n' % "\n".join("\\q" * 150 for _ in range(8)))
+        for n in (253, 254, 255, 256, 257):
+            mk("scratch-ident-%d" % n, "int %s; int after_%d;\n" % ("i" * n, n))
+            mk("scratch-string-%d" % n, 'string f() { return "%s" "x"; }\n' % ("s" * n))
+        mk("scratch-many-idents", "void f() { %s }\n" % " ".join("u%s = 1;" % ("v" * (i % 200)) for i in range(120)))
+        mk("string-concat-long", 'string f() { return %s; }\n' % " ".join('"%s"' % ("c" * 100) for _ in range(30)))
+        # the pad filled to the last bytes by pending function names, then an allocation that just fits / just not
+        def padfill(extras, inner, nfull=14):
+            names = ["p%02d%s" % (i, "n" * 247) for i in range(nfull)] + ["q%d%s" % (j, "m" * (e - 2)) for j, e in enumerate(extras)]
+            return "mixed t() { return\n" + "(\n".join(names) + "(\n" + inner + "\n" + ")" * len(names) + "; }\n"
+        for k in range(148, 158):
+            mk("pad-edge-colon-%d" % k, padfill([249], "%s::b()" % ("a" * (k - 1))))
+        for e in range(100, 118):
+            mk("pad-edge-string-%d" % e, padfill([e], '"%s"' % ("s" * 200), nfull=15))
+        for e in range(238, 255):
+            mk("pad-edge-ident-%d" % e, padfill([60], "z" * e, nfull=15))
+        mk("include-ends-in-comment", '#include "c.h"\nint after;\n', [("c.h", "int inc_var; // trailing comment without newline")])
+        mk("file-ends-in-comment", "int x; // no newline at end")
         mk("two-sources", "void f() { int time; { int time; } }", second="int g() { return time(); }")
         mk("empty", "")
         mk("nul-bytes", "int x;\x00\x00 int y;\n")
